@@ -1,0 +1,37 @@
+//go:build verif
+
+// Round 3 contracts for nsq_to_nsq (C20): the responder. Comment-only file.
+// Assumed library contracts and ghost observers: .trusted/relay.spec (PublishAsync, Requeue, host pool), .trusted/hfile.spec (Finish).
+
+package main
+
+// ASSUMED contract of go-nsq (the only sender into respChan is the go-nsq Producer: ProducerTransaction.finish() does
+// `t.doneChan <- t`): what arrives on the completion channel is a transaction started by PublishAsync, carrying the variadic
+// arguments of that call in Args and the outcome of the PUB in Error. (*PublishHandler).HandleMessage is the only caller that
+// passes ph.respChan and PROVES what it passes: [transaction-carries-the-message] (Args[0] = the source message, Args[1] = a
+// time.Time, three arguments) and, per mode, [round-robin-next-producer] (Args[2] a string) / [hostpool-chosen-producer]
+// (Args[2] the non-nil HostPoolResponse the pool handed out). r3dTxnMode(t) = the mode of the handler that started t.
+// There is no send into this channel in the repository, so the engine's sweep has nothing to check: this is an assumption.
+//@ fn r3dTxnMode(t *nsq.ProducerTransaction) int
+// implements(): the dynamic type of the value satisfies the interface the responder asserts (`t.Args[2].(hostpool.HostPoolResponse)`).
+//@ pred r3dIsHPResp(x any) := (x != nil && implements(x, "hostpool.HostPoolResponse"))
+//@ chaninv PublishHandler.respChan(v) := v != nil && len(v.Args) == 3 && dyntype(v.Args[0]) == typetag("*nsq.Message") && unbox(v.Args[0], "*nsq.Message") != nil && dyntype(v.Args[1]) == typetag("time.Time") && (r3dTxnMode(v) == ModeRoundRobin ==> dyntype(v.Args[2]) == typetag("string")) && (r3dTxnMode(v) == ModeHostPool ==> r3dIsHPResp(v.Args[2]))
+
+// responder: for every completed transaction exactly ONE response goes to the source nsqd, for the message the transaction
+// carries: Finish if and only if the destination acknowledged the publish (Error == nil), Requeue otherwise - never both,
+// never neither. Host-pool mode: the pool is told the same outcome.
+//@ func (ph *PublishHandler) responder()
+//@   props C20
+//@   requires ph != nil && ph.perAddressStatus != nil
+//@   requires[mode-is-valid] ph.mode == ModeRoundRobin || ph.mode == ModeHostPool
+// one PublishHandler (one mode, chosen once in main()) starts all transactions of the process
+//@   requires[one-mode-per-process] forall v *nsq.ProducerTransaction :: {r3dTxnMode(v)} r3dTxnMode(v) == ph.mode
+// (the receive that reports the closed channel is counted by recvd(), hence the -1; main() never closes respChan)
+//@   ensures[one-response-per-transaction] r3dResponses - old(r3dResponses) == recvd(ph.respChan) - old(recvd(ph.respChan)) - 1
+//@   loop 0
+//@     invariant[one-response-per-transaction] r3dResponses - old(r3dResponses) == recvd(ph.respChan) - old(recvd(ph.respChan))
+//@     invariant[finish-iff-acknowledged] r3dResponses > old(r3dResponses) ==> t != nil && r3dLastRespMsg == unbox(t.Args[0], "*nsq.Message") && (r3dLastRespFin <==> t.Error == nil)
+//@     invariant[finishes-and-requeues] hFinishes - old(hFinishes) + r3dRequeues - old(r3dRequeues) == r3dResponses - old(r3dResponses) && hFinishes >= old(hFinishes) && r3dRequeues >= old(r3dRequeues)
+//@     invariant[hostpool-told-the-outcome] ph.mode == ModeHostPool ==> r3dHPMarks - old(r3dHPMarks) == r3dResponses - old(r3dResponses) && (r3dResponses > old(r3dResponses) ==> ((r3dHPMarkErr == nil) <==> (t.Error == nil)))
+//@     invariant[round-robin-no-pool] ph.mode == ModeRoundRobin ==> r3dHPMarks == old(r3dHPMarks)
+//@     invariant[handler-kept] ph.mode == old(ph.mode) && ph.respChan == old(ph.respChan) && ph.perAddressStatus == old(ph.perAddressStatus)
